@@ -331,18 +331,24 @@ structure WOpts where
   mid : List Nat        -- zoom directory, total summary, data count: whatever the writer puts there
   tail : List Nat       -- zoom data and indexes, trailing magic
 
+/-- the number of items after which the writer cuts a data section: the option, capped by the 16-bit item count of a
+section header (`bigwigwrite.rs`, `let max_items = (options.items_per_slot as usize).min(u16::MAX as usize)`; D22) -/
+def WOpts.cut (o : WOpts) : Nat := min o.ips 65535
+
+theorem WOpts.cut16 (o : WOpts) : o.cut < 256 ^ 2 := by unfold WOpts.cut; omega
+theorem WOpts.cut1 (o : WOpts) (h : 0 < o.ips) : 0 < o.cut := by unfold WOpts.cut; omega
+
 def fileOf (o : WOpts) (cs : List ChromIn) : WigFile :=
   { zoomCount := o.zc, dataOff := o.dof, summaryOff := o.so, bufSize := o.bs, mid := o.mid,
-    sections := sectionsFrom o.ips 0 cs, keySize := keySizeOf cs, chromBlockSize := max 256 cs.length,
+    sections := sectionsFrom o.cut 0 cs, keySize := keySizeOf cs, chromBlockSize := max 256 cs.length,
     chroms := chromsFrom 0 cs, blockSize := o.b, itemsPerSlot := o.ips,
-    rootSpan := ((build true o.b ((mkDSecs (64 + o.mid.length) (sectionsFrom o.ips 0 cs)).map DSec.sec)).map
+    rootSpan := ((build true o.b ((mkDSecs (64 + o.mid.length) (sectionsFrom o.cut 0 cs)).map DSec.sec)).map
       (spanOf true)).getD ⟨⟨0, 0⟩, ⟨0, 0⟩⟩,
-    levels := (levelsOf true o.b ((mkDSecs (64 + o.mid.length) (sectionsFrom o.ips 0 cs)).map DSec.sec)).getD [],
+    levels := (levelsOf true o.b ((mkDSecs (64 + o.mid.length) (sectionsFrom o.cut 0 cs)).map DSec.sec)).getD [],
     tail := o.tail }
 
 structure ValidInput (o : WOpts) (cs : List ChromIn) : Prop where
   ips1 : 0 < o.ips
-  ips16 : o.ips < 256 ^ 2
   b2 : 2 ≤ o.b
   b16 : o.b < 256 ^ 2
   zc : o.zc < 256 ^ 2
@@ -367,12 +373,12 @@ theorem sections_ne_nil (ips : Nat) (hips : 0 < ips) (cs : List ChromIn) (hne : 
     omega
 
 theorem fileOf_valid (o : WOpts) (cs : List ChromIn) (h : ValidInput o cs) : (fileOf o cs).Valid := by
-  have hsne := sections_ne_nil o.ips h.ips1 cs h.nonempty h.chroms
-  have hdsne : mkDSecs (64 + o.mid.length) (sectionsFrom o.ips 0 cs) ≠ [] := by
-    cases hs : sectionsFrom o.ips 0 cs with
+  have hsne := sections_ne_nil o.cut (o.cut1 h.ips1) cs h.nonempty h.chroms
+  have hdsne : mkDSecs (64 + o.mid.length) (sectionsFrom o.cut 0 cs) ≠ [] := by
+    cases hs : sectionsFrom o.cut 0 cs with
     | nil => exact absurd hs hsne
     | cons x xs => simp [mkDSecs]
-  have hbytes : 64 + o.mid.length + (dataBytes (sectionsFrom o.ips 0 cs)).length ≤ (fileOf o cs).bytes.length := by
+  have hbytes : 64 + o.mid.length + (dataBytes (sectionsFrom o.cut 0 cs)).length ≤ (fileOf o cs).bytes.length := by
     simp only [WigFile.bytes, fileOf, List.length_append, wigHeaderBytes_length]
     omega
   refine
@@ -390,12 +396,12 @@ theorem fileOf_valid (o : WOpts) (cs : List ChromIn) (h : ValidInput o cs) : (fi
     · rw [h2]; exact hok.size
   · show ((chromsFrom 0 cs).map (·.1)).Nodup
     rw [chromsFrom_names]; exact h.names
-  · exact section_ok o.ips h.ips16 cs h.chroms h.nchroms (64 + o.mid.length) _ hbytes h.size
-  · exact ds_sorted o.ips h.ips1 cs h.chroms _
+  · exact section_ok o.cut o.cut16 cs h.chroms h.nchroms (64 + o.mid.length) _ hbytes h.size
+  · exact ds_sorted o.cut (o.cut1 h.ips1) cs h.chroms _
   · show levelsOf true o.b _ = some ((levelsOf true o.b _).getD [])
-    obtain ⟨Ls, hLs⟩ := levelsOf_some o.b h.b2 ((mkDSecs (64 + o.mid.length) (sectionsFrom o.ips 0 cs)).map DSec.sec)
+    obtain ⟨Ls, hLs⟩ := levelsOf_some o.b h.b2 ((mkDSecs (64 + o.mid.length) (sectionsFrom o.cut 0 cs)).map DSec.sec)
       (by simpa using hdsne)
-    have : (fileOf o cs).ds = mkDSecs (64 + o.mid.length) (sectionsFrom o.ips 0 cs) := rfl
+    have : (fileOf o cs).ds = mkDSecs (64 + o.mid.length) (sectionsFrom o.cut 0 cs) := rfl
     rw [this, hLs]; rfl
 
 theorem chromsFrom_get : ∀ (cs : List ChromIn) (id0 j : Nat) (hj : j < cs.length),
@@ -431,8 +437,8 @@ theorem wig_model_roundtrip (o : WOpts) (cs : List ChromIn) (h : ValidInput o cs
   obtain ⟨fuel₀, hf⟩ := wig_file_roundtrip (fileOf o cs) hv (cs[j].name, j, cs[j].size) hmem qs qe
   refine ⟨fuel₀, fun fuel hfuel => ?_⟩
   rw [hf fuel hfuel]
-  have : (fileOf o cs).ds = mkDSecs (64 + o.mid.length) (sectionsFrom o.ips 0 cs) := rfl
-  rw [this, sections_of_id o.ips h.ips1 cs 0 _ j]
+  have : (fileOf o cs).ds = mkDSecs (64 + o.mid.length) (sectionsFrom o.cut 0 cs) := rfl
+  rw [this, sections_of_id o.cut (o.cut1 h.ips1) cs 0 _ j]
   simp [hj]
 
 /-! ### the hypotheses are satisfiable -/
@@ -443,7 +449,6 @@ def o1 : WOpts := ⟨1, 2, 0, 344, 304, 0, [], []⟩
 /-- the hypotheses of `wig_model_roundtrip` are satisfiable: two chromosomes, three values, one item per slot -/
 example : ValidInput o1 cs1 where
   ips1 := by decide
-  ips16 := by decide
   b2 := by decide
   b16 := by decide
   zc := by decide
